@@ -66,13 +66,24 @@ def run_service(dims, steps, scratch, algorithm='GRID_SEARCH'):
   prob = build_problem(dims)
   sc = svz.StudyConfig.from_problem(prob)
   sc.algorithm = algorithm
-  name = svc.CreateStudy(vs.CreateStudyRequest(parent='owners/g', study=study_pb2.Study(display_name='grid', study_spec=sc.to_proto()))).name
+  def create():     # a fresh request each time: the in-process servicer writes the resource name into the request it is given
+    return vs.CreateStudyRequest(parent='owners/g', study=study_pb2.Study(display_name='grid', study_spec=sc.to_proto()))
+  name = svc.CreateStudy(create()).name
   out = []
   for k, n in enumerate(steps):
     if n == 0:
       svc.datastore._engine.dispose()  # pylint: disable=protected-access
       svc = vizier_service.VizierServicer(database_url=url)
       continue
+    if k % 2 == 1 or (k and steps[k - 1] == 0):
+      # a worker that joins, or re-attaches after the restart, does what Study.from_study_config does: CreateStudy with
+      # the same configuration, which must hand back the existing study untouched
+      try:
+        again = svc.CreateStudy(create()).name
+      except Exception as e:  # pylint: disable=broad-except
+        return out, 're-attaching failed: %s: %s' % (type(e).__name__, str(e)[:120])
+      if again != name:
+        return out, 're-attaching created another study: %s' % again
     op = svc.SuggestTrials(vs.SuggestTrialsRequest(parent=name, suggestion_count=n, client_id='w%d' % k))
     if not op.done or op.HasField('error'):
       return out, 'operation failed: %s' % str(op.error)[:200]
